@@ -201,3 +201,32 @@ func etSumThenWipe(n int, buf []byte) int {
 	}
 	return s
 }
+
+// --- proof alternatives ---
+
+// the base invariant describes another loop (s == i); the alternative fits this one
+func etAltFits(n int) int {
+	s := 0
+	for i := 0; i < n; i++ {
+		s += 2
+	}
+	return s
+}
+
+// neither the base invariant nor the alternative fits: the failures must stay
+func etAltNoneFits(n int) int {
+	s := 0
+	for i := 0; i < n; i++ {
+		s += 3
+	}
+	return s
+}
+
+// the alternative's invariant is inductive but too weak for the postcondition: it must be rejected
+func etAltTooWeak(n int) int {
+	s := 0
+	for i := 0; i < n; i++ {
+		s += 3
+	}
+	return s
+}
